@@ -75,7 +75,8 @@ func (w *world) observe(ctx sdk.Context) fullObs {
 		panic("community params not found")
 	}
 	mp := w.tApp.GetMintKeeper().GetParams(ctx)
-	kp := w.tApp.GetKavadistKeeper().GetParams(ctx)
+	var kp kavadisttypes.Params
+	kapp.ReadParams(w.tApp, ctx, "kavadist", &kp)
 	dp := w.tApp.GetDistrKeeper().GetParams(ctx)
 	st := ck.GetStakingRewardsState(ctx)
 	bk := w.tApp.GetBankKeeper()
